@@ -32,7 +32,8 @@ REGISTRY: Dict[str, List["Proof"]] = {}
 
 class Proof:
     def __init__(self, prop, name, fn, cases, functions, level, bounded, samples, timeout, uses, note, max_paths,
-                 scale, inlined):
+                 scale, inlined, thorough_only=False):
+        self.thorough_only = thorough_only
         self.prop = prop
         self.name = name
         self.fn = fn
@@ -60,10 +61,12 @@ def case_label(case) -> str:
 
 
 def proof(prop, name, *, cases=None, functions=None, level="P", bounded=True, samples=40, timeout=None, uses=None,
-          note="", max_paths=20000, scale=(0.1, 10.0), inlined=None):
+          note="", max_paths=20000, scale=(0.1, 10.0), inlined=None, thorough_only=False):
+    """thorough_only: the symbolic proof runs in the thorough tier only (the quick tier still runs its
+    bounded stand-in); used for obligations whose polynomial identities take minutes."""
     def deco(fn):
         p = Proof(prop, name, fn, cases, functions, level, bounded, samples, timeout, uses, note, max_paths, scale,
-                  inlined)
+                  inlined, thorough_only)
         REGISTRY.setdefault(prop, []).append(p)
         return fn
 
